@@ -1,7 +1,7 @@
 (* C13 -- a well formed molecule is editable: fix_structure raises nothing, hence add_atom raises nothing outside a transaction. *)
 From Coq Require Import ZArith List Bool Lia.
 From Model Require Import PyBase Cache.
-From Proofs Require Import CacheProofs CacheWf CacheCopy CacheCoh CacheWorld CacheTheorems.
+From Proofs Require Import CacheProofs CacheWf CacheCopy CacheCoh CacheWorld CacheUnion CacheTheorems.
 Import ListNotations.
 Open Scope Z_scope.
 
